@@ -218,6 +218,7 @@ fn documents() -> Vec<(&'static str, String)> {
 	vec![
 		("minimal", r#"{"tilejson":"3.0.0"}"#.to_string()),
 		("strings with quotes, backslash, control and non-BMP characters", "{\"tilejson\":\"3.0.0\",\"name\":\"a \\\"quoted\\\" \\\\ name \\u0001\\n \u{00fc} \u{1F600}\",\"attribution\":\"<a href=\\\"x\\\">\u{00a9}</a>\",\"description\":\"\"}".to_string()),
+		("lists that name the same entry more than once", r#"{"tilejson":"3.0.0","tiles":["https://a/{z}/{x}/{y}","https://b/{z}/{x}/{y}","https://a/{z}/{x}/{y}"],"grids":["",""],"data":["d","d","e","d"],"name":"repeats"}"#.to_string()),
 		("list, byte values, bounds, center", r#"{"tilejson":"3.0.0","tiles":["https://a/{z}/{x}/{y}","https://b/{z}/{x}/{y}"],"minzoom":0,"maxzoom":14,"fillzoom":7,"bounds":[-180,-85.05112877980659,180,85.05112877980659],"center":[13.4,52.5,7],"scheme":"xyz","version":"1.2.3"}"#.to_string()),
 		("wide zoom range and world bounds (to be narrowed)", r#"{"tilejson":"2.2.0","minzoom":0,"maxzoom":22,"bounds":[-179.9,-80.5,179.9,80.5],"name":"wide"}"#.to_string()),
 		(
@@ -374,7 +375,7 @@ fn part_containers(ctx: &Arc<Ctx>) {
 pub fn run(ctx: Arc<Ctx>) {
 	ctx.rule(
 		"values: all 1,112,064 one-character strings; all strings of length <= 3 over 20 escape-class characters (also as object keys); 36 numbers incl. -0, 1e21, 5e-324, max double, 2^53+-1; all nested values of depth <= 2 and width <= 2 over 7 leaves and three keys, depth 3 over every 401st (quick) / 7th (thorough) depth-2 value; each through stringify -> own parser (equal value) and stringify -> serde_json (same value). \
-		 TileJSON: 6 documents x {versatiles, pmtiles, tar, directory} x 3 compressions written by the real writers; stored metadata (independently decoded) and the re-opened reader's TileJSON must equal the given document, zoom range and bounds only narrowed, also when the reader's tile compression label is overridden before / after the first access; served tiles.json checked through the real server. non-trivial = distinct values / documents",
+		 TileJSON: 7 documents (incl. lists that repeat an entry) x {versatiles, pmtiles, tar, directory} x 3 compressions written by the real writers; stored metadata (independently decoded) and the re-opened reader's TileJSON must equal the given document, zoom range and bounds only narrowed, also when the reader's tile compression label is overridden before / after the first access; served tiles.json checked through the real server. non-trivial = distinct values / documents",
 	);
 	ctx.assume("serde_json is the 'standard JSON parser'; numbers are compared as f64");
 	part_values(&ctx);
